@@ -88,6 +88,20 @@ func init() {
 	}
 }
 
+// c07ring keeps the last 8 slices returned by Sum / MarshalBinary (across
+// members and cases); c07buf is the one reused, scribbled Write/Unmarshal operand.
+var (
+	c07ring retainRing
+	c07buf  = make([]byte, 0, 1024)
+)
+
+// c07write feeds p through the reused buffer and scribbles it afterwards.
+func c07write(h hash.Hash, p []byte) {
+	buf := append(c07buf[:0], p...)
+	h.Write(buf)
+	scribble(buf)
+}
+
 type marshaler interface {
 	encoding.BinaryMarshaler
 	encoding.BinaryUnmarshaler
@@ -108,7 +122,7 @@ func TestC07(t *testing.T) {
 	m := mon.New(t, "C07")
 	defer m.Done()
 	defer debug.SetGCPercent(debug.SetGCPercent(800)) // millions of tiny short-lived hashes; live heap stays small
-	m.Rule("(a) transparency: kind in {blake2b (every digest size 1..64), blake2s-256, legacy Keccak-256/512}; write history 0..600 bytes (strata: exact multiples of the block size/rate so that a FULL buffered block is marshaled, ±1, short, uniform) in random chunks; at 1..3 points (incl. before any write, at the end and at a full block) a random member of {original, earlier copies} is marshaled and unmarshaled into a fresh hash; all members and a never-marshaled control receive the same later writes; every Sum compared across members, with the control and with the reference digest (h/ref/blake2, h/ref/keccakleg); Keccak also in squeezing direction (Read continuation). (b) corrupt states: for each genuine base state, EVERY structural byte position (magic, counters, size, offset / rate, n, direction) set to EVERY value 0..255, every data byte position (h, block / sponge) set to every value in the thorough tier and to 8 boundary/random values in the quick tier, the full size×offset (blake) and n×direction, rate×n (Keccak) cross products, every truncation/extension length, random strings; after a nil-error UnmarshalBinary six probe sequences run on fresh copies: Size/BlockSize/Sum; Write(0|1); Write(blocksize); Write(200) Sum Write(200) Sum; Reset Sum Write(200) Sum; Write(bs-1) Write(2) Sum. Any panic is a violation, except the documented 'Write/Sum after Read' panic of a Keccak state whose direction byte says squeezing. One evaluation = one history (a) or one byte string handed to UnmarshalBinary (b).")
+	m.Rule("(a) transparency: kind in {blake2b (every digest size 1..64), blake2s-256, legacy Keccak-256/512}; write history 0..600 bytes (strata: exact multiples of the block size/rate so that a FULL buffered block is marshaled, ±1, short, uniform) in random chunks; at 1..3 points (incl. before any write, at the end and at a full block) a random member of {original, earlier copies} is marshaled and unmarshaled into a fresh hash; all members and a never-marshaled control receive the same later writes; every Sum compared across members, with the control and with the reference digest (h/ref/blake2, h/ref/keccakleg); Keccak also in squeezing direction (Read continuation). Caller memory: every Write and every UnmarshalBinary input goes through a buffer scribbled (0xA5) right after the call, one MarshalBinary output per round trip is scribbled (digest must not change) and one is retained with the recent Sum outputs and re-verified after later calls (output must not alias digest state). (b) corrupt states: for each genuine base state, EVERY structural byte position (magic, counters, size, offset / rate, n, direction) set to EVERY value 0..255, every data byte position (h, block / sponge) set to every value in the thorough tier and to 8 boundary/random values in the quick tier, the full size×offset (blake) and n×direction, rate×n (Keccak) cross products, every truncation/extension length, random strings; after a nil-error UnmarshalBinary six probe sequences run on fresh copies: Size/BlockSize/Sum; Write(0|1); Write(blocksize); Write(200) Sum Write(200) Sum; Reset Sum Write(200) Sum; Write(bs-1) Write(2) Sum. Any panic is a violation, except the documented 'Write/Sum after Read' panic of a Keccak state whose direction byte says squeezing. One evaluation = one history (a) or one byte string handed to UnmarshalBinary (b).")
 	m.Assume("Go runtime panics (index/slice out of range) are the observable for memory-safety of a restored state; h/ref/blake2 and h/ref/keccakleg are validated by their unit tests (RFC/KAT vectors, hashlib cross-checks); field names used in counters/keys are derived from the documented layout magic||h||c||size||block||offset resp. magic||rate||a||n||direction")
 	if err := refb2.SelfTest(); err != nil {
 		m.Inconclusive("reference self-test failed: " + err.Error())
@@ -189,7 +203,19 @@ func c07transparency(m *mon.M, kinds []*c07kind) {
 				bad = true
 				return
 			}
+			if bad0 := c07ring.verify(); bad0 != nil {
+				key := "returned-slice-modified-later:" + k.name
+				if strings.HasPrefix(bad0.what, "MarshalBinary") {
+					key = "marshal-output-aliases-state:" + k.name
+				}
+				m.Violation(key, wit(map[string]any{"slice": bad0.what, "was": mon.Hex(bad0.snap), "now": mon.Hex(bad0.s), "noticed": when}))
+				bad = true
+				return
+			}
+			m.Count("retained_outputs_verified", 1)
+			c07ring.add(cg, "Sum(nil) of the control "+k.name)
 			og := members[0].h.Sum(nil)
+			c07ring.add(og, "Sum(nil) of the original "+k.name)
 			if !bytes.Equal(og, want) {
 				m.Violation("marshal-disturbs-original:"+k.name, wit(map[string]any{"when": when, "written": written, "got": mon.Hex(og), "want": mon.Hex(want)}))
 				bad = true
@@ -212,17 +238,49 @@ func c07transparency(m *mon.M, kinds []*c07kind) {
 		}
 		marshalAt := func(written int) {
 			src := members[r.IntN(len(members))]
+			before := src.h.Sum(nil)
 			st, err := src.h.(marshaler).MarshalBinary()
 			if err != nil {
 				m.Violation("marshal-fails-on-unkeyed-hash:"+k.name, wit(map[string]any{"err": err.Error(), "written": written}))
 				bad = true
 				return
 			}
+			// st stays untouched in the ring: later mutation of the digest must
+			// not change it. A second output is scribbled: mutating a returned
+			// slice must not change the digest.
+			c07ring.add(st, fmt.Sprintf("MarshalBinary output of %s %s @%d", k.name, src.name, written))
+			if st2, err2 := src.h.(marshaler).MarshalBinary(); err2 == nil {
+				scribble(st2)
+				m.Count("marshal_outputs_scribbled", 1)
+				if bad0 := c07ring.verify(); bad0 != nil {
+					m.Violation("marshal-output-aliases-state:"+k.name, wit(map[string]any{"written": written, "slice": bad0.what, "was": mon.Hex(bad0.snap), "now": mon.Hex(bad0.s), "noticed": "after overwriting a second MarshalBinary result of the same hash"}))
+					bad = true
+					return
+				}
+				if after := src.h.Sum(nil); !bytes.Equal(after, before) {
+					m.Violation("marshal-output-aliases-state:"+k.name, wit(map[string]any{"written": written, "member": src.name, "sum_before": mon.Hex(before), "sum_after_scribbling_returned_slice": mon.Hex(after)}))
+					bad = true
+					return
+				}
+			}
 			cp := k.fresh(size)
-			if err := cp.(marshaler).UnmarshalBinary(st); err != nil {
+			in := append([]byte{}, st...)
+			if err := cp.(marshaler).UnmarshalBinary(in); err != nil {
 				m.Violation("unmarshal-rejects-valid-state:"+k.name, wit(map[string]any{"err": err.Error(), "written": written, "state": mon.FullHex(st), "buffered": written % k.bs}))
 				bad = true
 				return
+			}
+			scribble(in) // UnmarshalBinary must not retain its input
+			m.Count("unmarshal_inputs_scribbled", 1)
+			if got := cp.Sum(nil); !bytes.Equal(got, before) {
+				// distinguish "retains input" from a plain round-trip divergence
+				cp2 := k.fresh(size)
+				cp2.(marshaler).UnmarshalBinary(append([]byte{}, st...))
+				if bytes.Equal(cp2.Sum(nil), before) {
+					m.Violation("unmarshal-retains-input:"+k.name, wit(map[string]any{"written": written, "got_after_scribbling_input": mon.Hex(got), "want": mon.Hex(before)}))
+					bad = true
+					return
+				}
 			}
 			name := fmt.Sprintf("copy%d(of %s @%d)", len(members), src.name, written)
 			members = append(members, member{cp, name})
@@ -244,10 +302,11 @@ func c07transparency(m *mon.M, kinds []*c07kind) {
 		}
 		for idx := 1; idx < len(cuts) && !bad; idx++ {
 			chunk := msg[cuts[idx-1]:cuts[idx]]
-			control.Write(chunk)
+			c07write(control, chunk)
 			for _, mb := range members {
-				mb.h.Write(chunk)
+				c07write(mb.h, chunk)
 			}
+			m.Count("write_operands_scribbled", 1+len(members))
 			if len(trace) < 40 {
 				trace = append(trace, fmt.Sprintf("write %d", len(chunk)))
 			}
@@ -302,6 +361,10 @@ func c07transparency(m *mon.M, kinds []*c07kind) {
 	m.Gate("roundtrip_at_full_block", m.N(500, 25000), "state marshaled with a full buffered block (blake2 offset == BlockSize; Keccak just permuted)")
 	m.Gate("roundtrip_with_nonzero_counter", m.N(1500, 75000), "state marshaled after more than one block (non-zero counter)")
 	m.Gate("copy_sum_comparisons", m.N(8000, 400000), "Sum of a restored copy compared with the original's")
+	m.Gate("marshal_outputs_scribbled", m.N(6000, 300000), "a MarshalBinary result overwritten with 0xA5; the digest's Sum must not change")
+	m.Gate("unmarshal_inputs_scribbled", m.N(6000, 300000), "UnmarshalBinary input overwritten right after the call; the restored copy must not change")
+	m.Gate("write_operands_scribbled", m.N(20000, 1000000), "every Write through one reused buffer scribbled after the call")
+	m.Gate("retained_outputs_verified", m.N(8000, 400000), "last 8 Sum / MarshalBinary results re-verified against snapshots after later writes, sums and marshals on the same and other hashes")
 	m.Gate("squeezing_roundtrips", m.N(300, 15000), "legacy Keccak marshaled in squeezing direction, Read continued on both")
 }
 
@@ -402,7 +465,15 @@ func c07try(m *mon.M, k *c07kind, size int, b []byte, origin string) {
 	for pi, p := range c07probes {
 		h := k.fresh(size)
 		var err error
-		pv, stack := mon.Panics(func() { err = h.(marshaler).UnmarshalBinary(b) })
+		pv, stack := mon.Panics(func() {
+			if b == nil {
+				err = h.(marshaler).UnmarshalBinary(nil)
+				return
+			}
+			in := append(c07buf[:0], b...)
+			err = h.(marshaler).UnmarshalBinary(in)
+			scribble(in) // the restored state must not depend on the caller's slice
+		})
 		if pv != nil {
 			m.Violation("unmarshal-panics:"+k.name, map[string]any{"kind": k.name, "origin": origin, "state": mon.FullHex(b), "panic": fmt.Sprint(pv), "site": mon.PanicSite(stack)})
 			return
